@@ -196,7 +196,7 @@ def run(ctx):
         toks = H.interleave(rng, H.random_schedule(scs[0], rng, early=rng.choice([0, 1, 2])),
                             H.random_schedule(scs[1], rng, early=rng.choice([0, 1, 2])))
         _run_two(ctx, res, H, scs, toks)
-    n_random = 8000 if ctx.thorough else 900
+    n_random = 8000 if ctx.thorough else 750
     for i in range(n_random):
         if len(res.failures) >= MAX_FAILURES:
             break
@@ -216,7 +216,7 @@ def run(ctx):
     # link-layer behaviours: ONE communication qubit (every keep response carries the same physical id;
     # sequential keep requests whose pairs share a virtual qubit) and per-link numbering (responses of two
     # remote nodes carry equal (create_id, sequence_number))
-    n_link = 3000 if ctx.thorough else 500
+    n_link = 3000 if ctx.thorough else 420
     for i in range(n_link):
         if len(res.failures) >= MAX_FAILURES:
             break
@@ -230,7 +230,7 @@ def run(ctx):
         _run_case(ctx, res, H, sc, toks, "lnk")
     # application life cycle inside the schedules: two applications on the node, stop_application of one
     # while responses for the other's not-yet-issued requests are parked
-    n_life = 2500 if ctx.thorough else 450
+    n_life = 2500 if ctx.thorough else 380
     for i in range(n_life):
         if len(res.failures) >= MAX_FAILURES:
             break
